@@ -73,7 +73,7 @@ Lemma run_bound c script rands sleeps :
   n_attempts (fst (run_gen fixed c script rands sleeps)) <=
   max_replica_attempt * length (c_reps c) + n_rearms (fst (run_gen fixed c script rands sleeps)).
 Proof.
-  unfold run_gen. destruct (c_read c && negb (c_val c)); [cbn; lia|].
+  unfold run_gen. destruct (validation_refuses c); [cbn; lia|].
   pose proof (loop_bound c script (init_state c rands sleeps) None 0) as H.
   pose proof (room_init_le (c_reps c)).
   assert (E : room (init_state c rands sleeps) = room_l (map attempts (c_reps c))) by reflexivity.
@@ -118,7 +118,7 @@ Qed.
 
 Lemma run_rearms c script rands sleeps : n_rearms (fst (run_gen fixed c script rands sleeps)) <= n_hints script.
 Proof.
-  unfold run_gen. destruct (c_read c && negb (c_val c)); [cbn; lia|].
+  unfold run_gen. destruct (validation_refuses c); [cbn; lia|].
   set (s := init_state c rands sleeps). rewrite loop_unfold. cbn [pre]. cbv zeta. cbn [Nat.ltb Nat.leb].
   pose proof (sel_phase_spec c s) as Q; destruct (sel_phase c s) as [s2 t2 evs2|r evs2].
   2: { destruct Q as [Q1 Q2]. cbn [fst app]. lia. }
